@@ -533,6 +533,54 @@ class ExecS(Exec):
             outs.append(Outcome("normal", self.merge_states(base, finals)))
         return outs
 
+    def rebinds(self, body, name):
+        for st_ in body:
+            for n in ast.walk(st_):
+                ts = n.targets if isinstance(n, ast.Assign) else [n.target] if isinstance(n, (ast.AugAssign, ast.For)) else []
+                for t in ts:
+                    for x in ([t] if isinstance(t, ast.Name) else t.elts if isinstance(t, (ast.Tuple, ast.List)) else []):
+                        if isinstance(x, ast.Name) and x.id == name:
+                            return True
+        return False
+
+    def stored_arrays(self, body, st):
+        """Names (CArr.name) of C arrays written through a subscript inside the loop body."""
+        out = set()
+        for st_ in body:
+            for n in ast.walk(st_):
+                ts = n.targets if isinstance(n, ast.Assign) else [n.target] if isinstance(n, ast.AugAssign) else []
+                for t in ts:
+                    x = t
+                    while isinstance(x, ast.Attribute):
+                        x = x.value
+                    if isinstance(x, ast.Subscript):
+                        b = x.value
+                        try:
+                            v = self.ev(b, st, spec=True)
+                        except Exception:
+                            v = None
+                        if isinstance(v, CArr):
+                            out.add(v.name)
+        return out
+
+    def havoc_arrays(self, st, names):
+        new = {}
+        def repl(v):
+            if isinstance(v, CArr) and v.name in names:
+                if v.name not in new:
+                    if isinstance(v.arr, dict):
+                        new[v.name] = {f: fresh(f"{v.name}.{f}", a.sort()) for f, a in v.arr.items()}
+                    else:
+                        new[v.name] = fresh(v.name, v.arr.sort())
+                return CArr(new[v.name], v.n, v.off, v.name)
+            if isinstance(v, ObjV):
+                f2 = {k: repl(x) for k, x in v.fields.items()}
+                if any(f2[k] is not v.fields[k] for k in f2):
+                    return ObjV(v.cls, f2)
+            return v
+        for k in list(st.env):
+            st.env[k] = repl(st.env[k])
+
     def loop_spec(self, s):
         no = self.cx.loop_ids.get(id(s))
         spec = self.cx.c.loops.get(no)
@@ -583,10 +631,16 @@ class ExecS(Exec):
         if tgt:
             mod.add(tgt)
         h = st.copy()
+        stored = self.stored_arrays(s.body, h)
         for v in sorted(mod):
             if v in h.env:
-                h.env[v] = fresh_like(h.env[v], v)
+                cur = h.env[v]
+                if isinstance(cur, CArr) and cur.name not in stored and not self.rebinds(s.body, v):
+                    continue
+                h.env[v] = fresh_like(cur, v)
                 h.pc += shape_invariants(h.env[v])
+        if stored:
+            self.havoc_arrays(h, stored)
         for lab, inv in invs:
             h.pc.append(boolify(self.ev(inv, h, spec=True)))
         results = []
